@@ -41,13 +41,13 @@ impl Property for C09 {
     }
     fn cases(&self, tier: Tier) -> u64 {
         match tier {
-            Tier::Quick => 10_000,
+            Tier::Quick => 60_000,
             Tier::Thorough => 3_000_000,
         }
     }
     fn min_nontrivial(&self, tier: Tier) -> u64 {
         match tier {
-            Tier::Quick => 2_000,
+            Tier::Quick => 12_000,
             Tier::Thorough => 600_000,
         }
     }
